@@ -19,5 +19,9 @@ CONFIG = dict(
     ],
     explanation="Theorems: with validations on, every listed defect is rejected; an accepted entry's bytes equal those with validations off; "
                 "constructors per build profile. Correspondence: defect injection at every position under both build profiles "
-                "(debug assertions on / off), validations on and off, against the model; strict duplicate-detecting parse of every accepted record.",
+                "(debug assertions on / off), validations on and off, against the model; strict duplicate-detecting parse of every accepted record. "
+                "Soundness (c08_sound_with_routing): every record of an accepted entry — also the dimension-set records of split mode — has "
+                "pairwise different member names unless a dimension key collides with another member of its record (the known finding; the "
+                "class is decided in Coq by keys_okb, and the comparison nodup_strict tolerates a duplicate only inside it); entries with up to "
+                "130/200 dimension sets and a metric repeated under the k-th; rejected-then-valid sequences on one formatter.",
 )
